@@ -204,6 +204,21 @@ func pipelines(thorough bool) []program {
 			ps = append(ps, program{Name: fmt.Sprintf("fanout/cap%d/n%d", c, n), Src: src, FanOut: n, Bound: bound, Stages: 1})
 		}
 	}
+	// hand-off: the consumer passes its range variable to a goroutine per item; every
+	// item must come out exactly once
+	for _, c := range caps {
+		n := 3
+		src := fmt.Sprintf("c = make(chan int64, %d)\nout = make(chan interface, %d)\n", c, n+1) +
+			"go func() { for v in [1, 2, 3] { c <- v }; close(c) }()\n" +
+			"func handle(x) { out <- x }\n" +
+			"for v in c { go handle(v) }\n" +
+			fmt.Sprintf("r = []\nfor i = 0; i < %d; i++ { x = <-out; r += x }\nr\n", n)
+		bound := 2
+		if thorough {
+			bound = 3
+		}
+		ps = append(ps, program{Name: fmt.Sprintf("handoff/cap%d", c), Src: src, FanOut: n, Bound: bound, Stages: 1})
+	}
 	// fan-in of two producers; a closer goroutine closes after both are done
 	for _, c := range caps {
 		for n := 1; n <= 2; n++ {
@@ -238,6 +253,10 @@ func facts() []program {
 		{Name: "fact/range-return-keeps-buffered", Src: "c = make(chan int64, 4)\nc <- 1\nc <- 2\nc <- 3\nfunc first() { for v in c { return v } }\na = first()\n[a, (<-c), (<-c)]", Expect: render([]interface{}{int64(1), int64(2), int64(3)}), Bound: -1},
 		{Name: "fact/range-error-keeps-buffered", Src: "c = make(chan int64, 4)\nc <- 1\nc <- 2\nc <- 3\ntry { for v in c { throw \"x\" } } catch { }\n[(<-c), (<-c)]", Expect: render([]interface{}{int64(2), int64(3)}), Bound: -1},
 		{Name: "fact/recv-stmt-then-expr", Src: "c = make(chan int64, 4)\nc <- 1\nc <- 2\nc <- 3\nv, ok = <-c\nw = <-c\n[v, ok, w, (<-c)]", Expect: render([]interface{}{int64(1), true, int64(2), int64(3)}), Bound: -1},
+		// the range variable holds the item of ITS iteration, also when it is kept or handed on
+		{Name: "fact/range-var-kept", Src: "c = make(chan int64, 4)\nc <- 1\nc <- 2\nc <- 3\nclose(c)\nfirst = nil\nn = 0\nfor v in c { if n == 0 { first = v }; n++ }\n[first, n]", Expect: render([]interface{}{int64(1), int64(3)}), Bound: -1},
+		{Name: "fact/range-var-collected", Src: "c = make(chan string, 4)\nc <- \"a\"\nc <- \"b\"\nclose(c)\nkeep = []\nfor v in c { x = v; keep += [x] }\nkeep", Expect: render([]interface{}{"a", "b"}), Bound: -1},
+		{Name: "fact/range-var-closure", Src: "c = make(chan int64, 4)\nc <- 1\nc <- 2\nclose(c)\nfs = []\nfor v in c { w = v; fs += func() { return w } }\n[fs[0](), fs[1]()]", Expect: "", Multi: []string{render([]interface{}{int64(1), int64(2)}), render([]interface{}{int64(2), int64(2)})}, Bound: -1},
 		// go: arguments evaluated by the caller, before the start, in order
 		{Name: "go/args-evaluated-by-caller", Src: "out = make(chan interface, 1)\nx = 1\ngo func(a) { out <- a }(x)\nx = 2\n<-out", Expect: render(int64(1)), Bound: -1},
 		{Name: "go/args-order-and-capture", Src: "log = make(chan int64, 8)\nout = make(chan interface, 1)\nfunc p(i) { log <- i; return i }\ngo func(a, b) { out <- [a, b] }(p(1), p(2))\nlog <- 9\nr = <-out\n[<-log, <-log, <-log, r]", Expect: render([]interface{}{int64(1), int64(2), int64(9), []interface{}{int64(1), int64(2)}}), Bound: -1},
@@ -326,7 +345,16 @@ func check(p program, o vmrun.Outcome) (class, detail string) {
 		}
 		return "", ""
 	}
-	if got := render(o.Val); got != p.Expect {
+	got := render(o.Val)
+	if len(p.Multi) > 0 {
+		for _, w := range p.Multi {
+			if got == w {
+				return "", ""
+			}
+		}
+		return "wrong-result", "got " + got + " want one of " + strings.Join(p.Multi, " | ")
+	}
+	if got != p.Expect {
 		return "wrong-result", "got " + got + " want " + p.Expect
 	}
 	return "", ""
